@@ -247,6 +247,7 @@ CHECKS["C05"] = {
         plain("via_http", "^TestScriptsViaHTTP$", qs=16, ts=16),
         plain("bulk", "^TestScriptsBulk$", qs=16, ts=16),
         rapid("poll_during_pay", "^TestPollDuringPay$", 240, 7200, qs=4, ts=16),
+        rapid("poll_after_pay", "^TestPollAfterPay$", 160, 4800, qs=4, ts=16),
     ],
 }
 
@@ -455,7 +456,7 @@ HOOK_COMMITS = ["eca2adf", "812334f"]
 _ROUND2 = {
     "C01": "Round 2: melts of a race may be new attempts on the quote of the failed pre-melt (other inputs); the quote poll / state check that finds the failure out races them (pairs and triples in the enumeration); a retry counts as accepting only if that request issued a pay call itself. Behind the CLN adapter the node imitation lists earlier failed attempts of a payment in front of the current one.",
     "C02": "Round 2: unit backend_lnd as described; schedule units share the retry-on-failed-quote generator of C01.",
-    "C05": "Unit bulk: the same scripts with every proof-state check being part of a state check of 640 unrelated Ys (in front).",
+    "C05": "Unit poll_after_pay: the pay call is held after the node has recorded the outcome; polls run meanwhile may adopt it or say PENDING, the melt itself must then answer PAID for a payment that succeeded and the states follow the outcome. Unit bulk: the same scripts with every proof-state check being part of a state check of 640 unrelated Ys (in front).",
     "C06": "Round 2 semantic mutations: inactive_keyset_output (an output at any position names a retired keyset), own_invoice_node_lookup_fails (a valid melt of the mint's own invoice whose one Lightning call fails once).",
     "C09": "Round 2: one history in three runs on a mint with configured limits (max balance / mint max / melt max).",
     "C10": "Round 2: the read-back through restore puts never-signed outputs in front of, among and behind the signed ones; wallet histories contain op join (a new wallet, or a newly added mint, in the middle of a history).",
